@@ -199,7 +199,24 @@ func checkC11(sc cScenario, r cResult) (string, string) {
 			return "ctx-error", fmt.Sprintf("context ended at %d, call returned %s", t, r.outcome)
 		}
 	}
-	if i := f.firstClo; i >= 0 {
+	if i := f.firstClo; i >= 0 && sc.cerr == 3 {
+		// a conn whose Close takes cliSlowClose: the socket is dead from t on, Close (and with it
+		// the client's done channel) completes at t+cliSlowClose. A call that was running at t
+		// returns the no-response error somewhere in that window - also when one of its tries
+		// starts inside it (the write fails: the client is being closed, not the network).
+		t := f.eff[i]
+		if !(sc.n >= 0 && schedAt(sc.T, sc.n) <= t) && f.firstCan < 0 && f.firstAcc < 0 && sc.werr < 0 {
+			if !r.returned || r.retT < t || r.retT > t+cliSlowClose {
+				return "close-prompt", fmt.Sprintf("slow Close from %d to %d, call %s", t, t+cliSlowClose, r.canon())
+			}
+			if r.outcome != "noresp" {
+				return "close-error", fmt.Sprintf("slow Close from %d to %d, call returned %s", t, t+cliSlowClose, r.canon())
+			}
+		}
+		if r.closeT != t+cliSlowClose {
+			return "close-returns", fmt.Sprintf("slow Close called at %d returned at %d", t, r.closeT)
+		}
+	} else if i >= 0 {
 		t := f.eff[i]
 		if !r.returned || r.retT > t {
 			return "close-prompt", fmt.Sprintf("Close at %d, call %s", t, r.canon())
@@ -346,6 +363,9 @@ func timedOracle(name string, check func(cScenario, cResult) (string, string)) f
 				continue
 			}
 			sc, tags := genTimedScenario(r.Fork(), i%2 == 1)
+			if name == "c11" && i%8 >= 6 {
+				sc, tags = genSlowCloseScenario(r.Fork(), i%2 == 1)
+			}
 			if i%2 == 1 {
 				tags = append(tags, "v6")
 			} else {
@@ -356,6 +376,57 @@ func timedOracle(name string, check func(cScenario, cResult) (string, string)) f
 		res.Distinct = len(seen)
 		return res
 	}
+}
+
+// genSlowCloseScenario: Close on a conn whose Close takes cliSlowClose of virtual time, placed so
+// that a try boundary (a per-try deadline, hence the next WriteTo) falls INSIDE Close, just
+// before it, or at its very end; silent or chattering (rejected / irrelevant datagrams) network.
+func genSlowCloseScenario(r *Rng, v6 bool) (cScenario, []string) {
+	sc := cScenario{v6: v6, werr: -1, cerr: 3, cap: r.Range(0, 5)}
+	sc.T = []int64{1000000, 150000000, 1000000000, 3000000000}[r.Intn(4)]
+	sc.n = r.Range(2, 5)
+	if r.Chance(1, 6) {
+		sc.n = -1
+	}
+	sc.matchNil = false
+	kmax := sc.n - 1
+	if sc.n < 0 {
+		kmax = 4
+	}
+	k := r.Range(1, kmax)
+	b := schedAt(sc.T, k)
+	var t int64
+	tags := []string{"slow-close"}
+	switch r.Intn(5) {
+	case 0, 1:
+		t = b - cliSlowClose/2
+		tags = append(tags, "slow-close-try-inside")
+	case 2:
+		t = b - int64(r.Range(1, cliSlowClose-1))
+		tags = append(tags, "slow-close-try-inside")
+	case 3:
+		t = b - cliSlowClose - int64(r.Range(1, 500))
+		tags = append(tags, "slow-close-before-try")
+	default:
+		t = b + int64(r.Range(1, 500))
+		tags = append(tags, "slow-close-after-try")
+	}
+	for j := r.Range(0, 3); j > 0; j-- {
+		tt := int64(r.Range(0, int(t/1000))) * 1000
+		if tt >= t {
+			continue
+		}
+		sc.evs = append(sc.evs, cEvent{t: tt, kind: []string{"rej", "ix", "ig", "io"}[r.Intn(4)], sync: true})
+	}
+	// events in time order
+	for i := 1; i < len(sc.evs); i++ {
+		for j := i; j > 0 && sc.evs[j].t < sc.evs[j-1].t; j-- {
+			sc.evs[j], sc.evs[j-1] = sc.evs[j-1], sc.evs[j]
+		}
+	}
+	sc.evs = append(sc.evs, cEvent{t: t, kind: "clo", sync: r.Chance(1, 2)})
+	sc.H = t + sc.T
+	return sc, tags
 }
 
 func init() {
